@@ -288,6 +288,29 @@ def run_cross5(case):
     return session.run_cross_resume(case, lambda: [schedule_monitor("sched", resumed=True)])
 
 
+def run_stall(case):
+    """Run-length regime: histories that already END with many consecutive batches at one temperature 0 < beta < 1 (the schedule is waiting for the
+    pool to grow) while the pool's ESS there is still below the target: the next transition must keep waiting, however long the wait has been."""
+    from mc.refmodels import mis as _mis
+    res = Res()
+    n, W = case["n"], case["W"]
+    for m in case["waits"]:
+        for bp in (0.25, 0.0625, 0.9):
+            T = W + m
+            N = n * T
+            # a few dominant samples: the ESS at bp is a small fraction of the pool whatever its size
+            base = np.where(np.arange(N) % 13 == 3, 40.0, -3.0 - 0.001 * (np.arange(N) % 11))
+            lv = [float(v) for v in base / bp * 0.25]
+            betas = [0.0] * W + [bp] * m
+            lz = float(_mis.logw_float([np.array(lv[: n * W])], [0.0], [0.0], bp)[1])
+            logzs = [0.0] * W + [lz] * m
+            # ESS(pool at bp) is about N/13: targets between that and the pool size, from just above it (small ess_ratio, long wait relative to it) upwards
+            for ratio, vv in ((float(T) / 13 * 1.5, None), (float(T) / 13 * 1.5, 0.5), (float(T) / 13 * 3.0, None), (float(T) * 0.5, None), (float(T) * 0.5, 0.5)):
+                one_transition(res, dict(case), [n] * T, betas, logzs, lv, n, ratio, vv, d=1)
+    res.states += 1
+    return res
+
+
 def run_sentinel(case):
     """Value regime: likelihoods that return a huge FINITE sentinel (-1e300, -1e30, -1e15) instead of -inf outside their support.  Such samples carry
     full weight at beta=0 and none at any beta > 0, so the ESS is discontinuous at 0: one transition from warm-up pools made of sentinel and
@@ -368,7 +391,7 @@ def run_session5(case):
     return session.run_case(case, lambda: [schedule_monitor("sched")], oracle=None, key_pred=lambda k: k.startswith("sched:") or k.startswith("session:copy") or k.startswith("session:deepcopy"))
 
 
-KINDS = {"sentinel": run_sentinel, "ladder": run_ladder5, "session": run_session5, "cross": run_cross5, "duo": run_duo, "edge": run_edge, "stateful": run_stateful, "block": run_block, "rw1": run_rw1, "first": run_first, "pipe": run_pipe, "pipe1": run_pipe1}
+KINDS = {"stall": run_stall, "sentinel": run_sentinel, "ladder": run_ladder5, "session": run_session5, "cross": run_cross5, "duo": run_duo, "edge": run_edge, "stateful": run_stateful, "block": run_block, "rw1": run_rw1, "first": run_first, "pipe": run_pipe, "pipe1": run_pipe1}
 
 FACTORS = [
     ("sample", ["tpcn", "rwm"]),
@@ -408,6 +431,7 @@ def plan(ctx):
     dcfg = dict(n_particles=8, d=1, ess_ratio=1.0, n_total=10 ** 6, eval="scalar", clustering=False)
     duo = [{"kind": "duo", "cfg": dict(dcfg, vv=vv), "base": ctx.seed, "depth": 5 if th else 4, "shard": [sh, 8]} for vv in (None, 0.5) for sh in range(8)]
     ctx.explore("two-samplers-interleaved", duo)
+    ctx.explore("long-waits-at-one-temperature", [{"kind": "stall", "n": n_, "W": W_, "waits": [1, 5, 7, 8, 13, 20, 40]} for n_, W_ in ((8, 2), (16, 3))])
     ctx.explore("finite-sentinel-likelihoods", [{"kind": "sentinel", "n": n_, "sentinel": sv, "scale": sc} for n_ in (16, 64) for sv in (-1e300, -1e30, -1e15) for sc in (1.0, 30.0)])
     ctx.explore("scale-ladder", [{"kind": "ladder", "n": n_, "W": W_, "d": 2} for n_, W_ in ((4096, 9), (2048, 20), (8192, 8)) + (((16384, 8),) if th else ())])
     from mc.pipeline import LARGE
